@@ -1,0 +1,9 @@
+//go:build !verif
+
+package verifhook
+
+// Point is a no-op without the verif build tag.
+func Point(id uint16) {}
+
+// Emit is a no-op without the verif build tag.
+func Emit(kind uint8, a, b, c uint64) {}
